@@ -90,6 +90,18 @@ impl Error for SvgdxError {
 }
 
 impl SvgdxError {
+    /// True if this error (or any element error it collects) reports that a
+    /// configured limit (depth, loop count, variable length) was exceeded.
+    pub fn is_limit_error(&self) -> bool {
+        match self {
+            SvgdxError::VarLimitError(..)
+            | SvgdxError::LoopLimitError(..)
+            | SvgdxError::DepthLimitExceeded(..) => true,
+            SvgdxError::MultiError(errors) => errors.values().any(|(_, e)| e.is_limit_error()),
+            _ => false,
+        }
+    }
+
     pub fn from_err<T>(err: T) -> SvgdxError
     where
         T: std::error::Error + 'static,
